@@ -85,6 +85,8 @@ func c10(tier string) []*explore.Scenario {
 	for _, end := range []string{"stop", "write-fails", "read-fails"} {
 		out = append(out, c12ResetsUnread("C10", end, 2))
 	}
+	// finer granularity (a scheduling point after every Unlock as well) on the small core scenarios
+	out = append(out, fineGrained(c10One("UR", c10End{"stop", 1}, 1), c10One("oS", c10End{"read", 1}, 1))...)
 	return out
 }
 
